@@ -12,6 +12,7 @@
 import GoblVerif.Spec.C06
 import GoblVerif.Generated.CodecFacts
 import GoblVerif.Proofs.Codec
+import GoblVerif.Proofs.CodecMinimal
 import GoblVerif.Generated.CodecSrc
 import GoblVerif.Proofs.CodecSrc
 import GoblVerif.Proofs.Num
@@ -70,6 +71,45 @@ theorem min_int64_texts :
     amountToString ⟨-2 ^ 63, 2⟩ = "-92233720368547758.08".toList ∧
     amountToString ⟨-2 ^ 63, 18⟩ = "-9.223372036854775808".toList := by
   refine ⟨by decide +kernel, by decide +kernel, by decide +kernel⟩
+
+
+/-! ## amounts: the minimal text -/
+
+/-- `MinimalString` (trailing zeros of the decimals and a left-over point removed) of **any**
+    int64 amount with at most 18 decimals is a member of the published pattern … -/
+theorem minimal_string_matches (a : Amount) (he : a.exp ≤ 18)
+    (hlo : -(2 : ℤ) ^ 63 ≤ a.value) (hhi : a.value < (2 : ℤ) ^ 63) :
+    isAmountText (amountMinimalString a) = true := by
+  obtain ⟨v, e⟩ := a
+  simp only at he hlo hhi
+  obtain ⟨body, b, htext, hnm, hbody, _, _⟩ := amountMinimalString_parse v e he hlo hhi
+  rw [htext]
+  unfold isAmountText
+  by_cases hneg : v < 0
+  · simp only [hneg, decide_true, sgn, if_true]; exact hbody
+  · simp only [hneg, decide_false, sgn, Bool.false_eq_true, if_false]
+    rw [stripMinus_eq]
+    have : trimPrefixMinus body = body := by
+      cases body with
+      | nil => rfl
+      | cons c r =>
+        by_cases hc : c = '-'
+        · subst hc; simp [hasPrefixMinus] at hnm
+        · simp [trimPrefixMinus, hc]
+    rw [this]; exact hbody
+
+/-- … and it is read back as an amount of the **same value** (the exponent is the number of
+    decimals that are left). -/
+theorem minimal_string_preserves_value (a : Amount) (he : a.exp ≤ 18)
+    (hlo : -(2 : ℤ) ^ 63 ≤ a.value) (hhi : a.value < (2 : ℤ) ^ 63) :
+    ∃ b, amountFromString (amountMinimalString a) = .ok b ∧ b.toRat = a.toRat := by
+  obtain ⟨v, e⟩ := a
+  simp only at he hlo hhi
+  obtain ⟨body, b, htext, hnm, _, hparse, hval⟩ := amountMinimalString_parse v e he hlo hhi
+  exact ⟨b, by rw [htext, amountFromString_sgn _ body (fun _ => hnm), hparse], hval⟩
+
+example : amountMinimalString ⟨-1250, 2⟩ = "-12.5".toList ∧ amountMinimalString ⟨1000, 3⟩ = "1".toList ∧
+    amountMinimalString ⟨10, 0⟩ = "10".toList ∧ amountMinimalString ⟨0, 4⟩ = "0".toList := by decide
 
 /-! ## amounts: reading -/
 
@@ -1028,6 +1068,21 @@ theorem json_null_of_the_source (cur : Amount) :
   · have : amountUnmarshalJSON cur "\"null\"".toList = .error .major := rfl
     rw [this]
     simp [toGoU, GoStr.errNew]
+
+/-- MINIMAL STRING, over the translated `MinimalString` and `AmountFromString`: the text of every
+    int64 amount with at most 18 decimals is a member of the pattern and is read back, without an
+    error, as an amount of the same value -/
+theorem minimal_string_of_the_source (a : Amount) (he : a.exp ≤ 18)
+    (hlo : -(2 : ℤ) ^ 63 ≤ a.value) (hhi : a.value < (2 : ℤ) ^ 63) :
+    isAmountText (CodecSrc.Amount_MinimalString a) = true ∧
+    (CodecSrc.AmountFromString (CodecSrc.Amount_MinimalString a)).2 = none ∧
+    (CodecSrc.AmountFromString (CodecSrc.Amount_MinimalString a)).1.toRat = a.toRat := by
+  have h1 : minInt64 ≤ a.value := by unfold minInt64; norm_num at hlo; omega
+  have h2 : a.value ≤ maxInt64 := by unfold maxInt64; norm_num at hhi; omega
+  rw [src_MinimalString a (Or.inl he) h1 h2, src_AmountFromString]
+  obtain ⟨b, hb, hv⟩ := minimal_string_preserves_value a he hlo hhi
+  rw [hb]
+  exact ⟨minimal_string_matches a he hlo hhi, rfl, hv⟩
 
 end Src
 
